@@ -414,6 +414,15 @@ func checkC04(c *Ctx, r *Report) {
 
 	// a command whose retries were given up is a failed command (rule shared by C04, C10, C13)
 	checkRetryFailureReturned(c, r)
+
+	// the acceptance rules above are rules about the retried operations: nothing is transmitted,
+	// and hence no reply taken, anywhere else (shared with C09, C10, C13, C18)
+	checkSendSites(c, r)
+
+	// "a valid AuthCode under the session's K1": the integrity algorithm the session verifies with
+	// is the negotiated one at its specified length — a hash truncated to nothing accepts an empty
+	// AuthCode (tables shared with C01–C03, C12)
+	checkAlgorithmTables(c, r)
 }
 
 // phiCountsFromOne: phi with one constant edge 1 and one edge phi+1.
